@@ -5,8 +5,9 @@ from harness import casgen, common, refio, sessions
 from harness.common import bud
 
 PROP = "C01"
-MODULES = ["CassisModel.Properties.C01", "CassisModel.Properties.C01RoundTrip", "CassisModel.Properties.C01Applies", "CassisModel.Properties.C01RoundTripColl", "CassisModel.Properties.C01AppliesColl", "CassisModel.Properties.C03Doc"]
+MODULES = ["CassisModel.Properties.C01", "CassisModel.Properties.C01RoundTrip", "CassisModel.Properties.C01Applies", "CassisModel.Properties.C01RoundTripColl", "CassisModel.Properties.C01AppliesColl", "CassisModel.Properties.C01FixpointColl", "CassisModel.Properties.C03Doc"]
 THEOREMS = [
+    "Cassis.Xmi.xmi_roundtrip_coll_fixpoint",
     "Cassis.Lex.parseInt_showInt",
     "Cassis.Lex.splitWs_joinSp",
     "Cassis.Lex.hexDec_hexEnc",
